@@ -371,7 +371,7 @@ fn main() {
         let thorough = args.tier == "thorough";
         let mut rng = Rng::new(args.seed ^ 0xc03);
         let profs = profiles();
-        let cases = if thorough { 120000 } else { 4000 };
+        let cases = if thorough { 120000 } else { 10000 };
         for i in 0..cases {
             let n = [1usize, 2, 4, 8][(i % 4) as usize];
             let p = &profs[(i / 4) as usize % profs.len()];
